@@ -388,6 +388,8 @@ def histories(T, V, r, n, res, stats):
                 stats["shared_trees"] += 1
         steps = ["tree %d = %s" % (i, tdesc(T, t)[:400]) for i, t in enumerate(trees)]
         visits, expected = [], []
+        last_visit = None
+        n_trees0 = len(trees)
         seen_types = {}
         cache_hits = 0
         edits = 0
@@ -399,12 +401,33 @@ def histories(T, V, r, n, res, stats):
                     edits += 1
                     steps.append("edit tree %d: %s" % (ti, what))
             ii, ti = r.randrange(len(insts)), r.randrange(len(trees))
+            if step and last_visit is not None and r.random() < 0.3:
+                # the SAME instance, right after a visit, on the sub-expression it handled last (the parent of the
+                # last leaf in pre-order) or first: what it remembers of the previous visit must not leak
+                ii, whole = last_visit
+                pn = list(true_nodes(T, whole))
+                inner = [nd for _, nd in pn if nd.children]
+                by_path = {tuple(p_): nd for p_, nd in pn}
+                last_parent = by_path.get(tuple(pn[-1][0])[:-1]) if pn and len(pn[-1][0]) else None
+                if inner:
+                    vc, inst = insts[ii]
+                    pick = r.choice([last_parent or inner[-1], last_parent or inner[-1], inner[-1], inner[0],
+                                     r.choice(inner)])
+                    trees.append(pick)
+                    ti = len(trees) - 1
             vc, inst = insts[ii]
             tree = trees[ti]
+            sub = ""
+            if r.random() < 0.3 and ti < n_trees0:
+                # a sub-expression OBJECT of a tree (possibly one this instance has just visited as part of the
+                # whole): visited on its own, it is a root, with no ancestor and the empty path
+                inner = [nd for _, nd in true_nodes(T, tree)]
+                tree = r.choice(inner)
+                sub = " (the sub-expression object %s of it)" % tdesc(T, tree)[:80]
             gt = lib.g_item(tree)                       # the tree as it is right before the call
             ids = [id(nd) for _, nd in true_nodes(T, tree)]
-            steps.append("instance %d (handlers %s%s, %s) visits tree %d" % (
-                ii, vc["prefix"], "|".join(vc["H"]), "path" if vc["pt"] else "plain", ti))
+            steps.append("instance %d (handlers %s%s, %s) visits tree %d%s" % (
+                ii, vc["prefix"], "|".join(vc["H"]), "path" if vc["pt"] else "plain", ti, sub))
             for _, nd in true_nodes(T, tree):
                 key = (ii, type(nd))
                 cache_hits += key in seen_types
@@ -415,7 +438,9 @@ def histories(T, V, r, n, res, stats):
                 gev = g_tlist([g_event(e) for e in events], "pyev")
                 if not why:
                     # judged against an unshared deep copy of the tree as it is now
-                    ref = inst.visit(fresh(T, tree))
+                    # (by a NEW instance of the same class: the instance under test must not see other trees in
+                    # between, what it remembers of this visit is part of what the next step tests)
+                    ref = type(inst)(track_parents=vc["tp"]).visit(fresh(T, tree))
                     if [proj(e) for e in ref] != [proj(e) for e in events]:
                         why = "events differ from those on a fresh deep copy of the same tree"
             except Exception as e:
@@ -428,6 +453,7 @@ def histories(T, V, r, n, res, stats):
                 res.failures.append(({"kind": "visitor modified the tree", "history": list(steps)}, None))
             visits.append("(%d%%nat, %s)" % (ii, gt))
             expected.append(gev)
+            last_visit = (ii, tree)
             stats["events"] += gev.count("Some C") + gev.count("@None cls")
         hist_cases.append("(%s, %s, %s)" % (lib.g_list([g_vconf(vc) for vc, _ in insts]),
                                             lib.g_list(visits), lib.g_list(expected)))
